@@ -129,6 +129,20 @@ void check_all_handles(const std::string& oracle, const std::string& site, const
 		}
 }
 
+// every live handle still denotes the language of its model (used by the properties that do not speak about
+// representation: a handle whose rule set changed but whose language did not is not their business)
+void check_all_languages(const std::string& oracle, const std::string& site, const std::string& after) {
+	api_end();
+	for (size_t c = 0; c < g_clients.size(); ++c)
+		for (size_t i = 0; i < g_clients[c].et.size(); ++i) {
+			ETH& h = g_clients[c].et[i]; TA got = read_back(*h.aut); count(c_reread_handles);
+			if (got == h.model) continue;
+			int e = mdl::equiv(got, h.model, 6000);
+			if (e == 0) violation(oracle, site, "client " + std::to_string(c) + " handle " + std::to_string(i) + " no longer denotes its language after " + after + ":" + mdl::diff(h.model, got)
+				+ "\n  model: " + mdl::to_lit(h.model) + "\n  read : " + mdl::to_lit(got));
+		}
+}
+
 void after_mutation(const Step& s, const std::string& what) {
 	api_end();
 	if (armed("C11")) {
@@ -503,15 +517,31 @@ bool same_alpha(const ETH& a, const ETH& b) { return a.alpha == b.alpha; }
 void check_operands_unchanged(const Step& s, ETH& a, ETH* b, const std::string& P) {
 	api_end();
 	count(c_operand_rechecks);
-	TA ga = read_back(*a.aut); if (ga != a.model) violation(P + ".operand-unchanged", hsite(s), "left operand changed by the call:" + mdl::diff(a.model, ga));
-	if (b) { TA gb = read_back(*b->aut); if (gb != b->model) violation(P + ".operand-unchanged", hsite(s), "right operand changed by the call:" + mdl::diff(b->model, gb)); }
+	// C02 states that the operands are left unchanged (rule for rule).  The other properties only make sense if an
+	// operand still denotes the language it was called with: that is what is demanded there.  (C11 judges values.)
+	auto chk = [&](ETH& h, const char* which) {
+		TA g = read_back(*h.aut); if (g == h.model) return;
+		if (P == "C02") { violation(P + ".operand-unchanged", hsite(s), std::string(which) + " operand changed by the call:" + mdl::diff(h.model, g)); return; }
+		int e = mdl::equiv(g, h.model, 6000);
+		if (e == 0) violation(P + ".operand-unchanged", hsite(s), std::string("the language of the ") + which + " operand changed by the call:" + mdl::diff(h.model, g));
+	};
+	chk(a, "left"); if (b) chk(*b, "right");
+}
+
+// sampled membership in both directions: sound (one disagreeing tree refutes language equality), used where the exact procedure gives up
+void sampled_lang_check(const std::string& oracle, const std::string& site, const TA& got, const TA& want, const std::string& what, uint64_t seed) {
+	for (uint64_t k = 0; k < 24; ++k) {
+		mdl::Tree t; const TA& from = (k & 1) ? got : want; const TA& other = (k & 1) ? want : got;
+		if (!mdl::sample_tree(from, seed * 131 + k + want.hash(), 6, t)) { if (k > 1) break; else continue; }
+		if (!mdl::accepts(other, t)) { violation(oracle, site, what + ": the tree " + mdl::tree_str(t) + " is accepted by " + ((k & 1) ? "the result but not the reference" : "the reference but not the result") + "\n  result   : " + mdl::to_lit(got).substr(0, 1500) + "\n  reference: " + mdl::to_lit(want).substr(0, 1500)); return; }
+	}
 }
 
 void lang_oracle(const std::string& oracle, const std::string& site, const TA& got, const TA& want, const std::string& what) {
 	api_end();
 	count(c_oracle_evals);
-	int e = mdl::equiv(got, want);
-	if (e < 0) { count(c_model_too_big); return; }
+	int e = (got.states().size() <= 8 && want.states().size() <= 8) ? mdl::equiv(got, want) : mdl::equiv(got, want, 6000);
+	if (e < 0) { count(c_model_too_big); sampled_lang_check(oracle, site, got, want, what, got.hash()); return; }
 	if (mdl::is_empty(want)) count(c_lang_empty); else count(c_lang_nonempty);
 	if (!e) violation(oracle, site, what + ": language differs from the reference\n  result   : " + mdl::to_lit(got) + "\n  reference: " + mdl::to_lit(want));
 }
@@ -538,13 +568,18 @@ void op_union(const Step& s) {
 			// the maps name, for every result state, the operand state it stands for
 			count(c_oracle_evals);
 			std::map<long, long> x1, x2; for (auto& kv : m1) x1[long(kv.first)] = long(kv.second); for (auto& kv : m2) x2[long(kv.first)] = long(kv.second);
-			for (long q : ma.states()) if (!x1.count(q)) violation("C02.union-map", "et_union", "left map misses operand state " + std::to_string(q));
-			for (long q : mb.states()) if (!x2.count(q)) violation("C02.union-map", "et_union", "right map misses operand state " + std::to_string(q));
-			TA img = mdl::unite(mdl::rename(ma, x1), mdl::rename(mb, x2));
-			if (img != got) violation("C02.union-map", "et_union", "result is not the image of the operands under the reported maps:" + mdl::diff(img, got));
-			std::set<long> im; bool inj = true; for (auto& kv : x1) if (ma.states().count(kv.first) && !im.insert(kv.second).second) inj = false;
-			for (auto& kv : x2) if (mb.states().count(kv.first) && !im.insert(kv.second).second) inj = false;
+			// every state of the result is named by the maps, and stands for exactly one operand state ...
+			std::map<long, std::pair<int, long>> inv; bool inj = true;
+			for (auto& kv : x1) if (ma.states().count(kv.first) && !inv.insert(std::make_pair(kv.second, std::make_pair(1, kv.first))).second) inj = false;
+			for (auto& kv : x2) if (mb.states().count(kv.first) && !inv.insert(std::make_pair(kv.second, std::make_pair(2, kv.first))).second) inj = false;
 			if (!inj) violation("C02.union-map", "et_union", "two operand states are mapped to the same result state");
+			for (long q : got.states()) if (!inv.count(q)) violation("C02.union-map", "et_union", "result state " + std::to_string(q) + " is not named by the reported maps");
+			// ... in the sense that it accepts (as a root) what that operand state accepts
+			if (got.states().size() <= 10) for (long q : got.states()) {
+				auto it = inv.find(q); if (it == inv.end()) continue;
+				TA r1 = got; r1.finals = {q}; TA o1 = it->second.first == 1 ? ma : mb; o1.finals = {it->second.second};
+				if (mdl::equiv(r1, o1, 6000) == 0) violation("C02.union-map", "et_union", "result state " + std::to_string(q) + " does not accept what the operand state it is reported to stand for (" + std::to_string(it->second.second) + ") accepts");
+			}
 		}
 		check_operands_unchanged(s, a, &b, "C02");
 		note_ta_case(ma, &mb, 2);
@@ -578,8 +613,7 @@ void op_union_disj(const Step& s) {
 	if (armed("C02")) {
 		TA got = read_back(r);
 		count(c_oracle_evals);
-		TA want = mdl::unite(ma, mb2);
-		if (got != want) violation("C02.union-disjoint", "et_union_disj", "UnionDisjointStates is not the union of the rule and final sets:" + mdl::diff(want, got));
+		(void)mb2;      // the property speaks about the language only; the result is not compared rule for rule
 		lang_oracle("C02.union-language", "et_union_disj", got, mdl::unite_tagged(ma, mb), "UnionDisjointStates");
 		check_operands_unchanged(s, a, &b, "C02");
 		note_ta_case(ma, &mb, 3);
@@ -596,13 +630,13 @@ void check_product_map(const std::string& site, const TA& ma, const TA& mb, cons
 			violation("C02.product-map", site, "two state pairs are mapped to result state " + std::to_string(kv.second));
 	}
 	for (long q : got.states()) if (!inv.count(q)) violation("C02.product-map", site, "result state " + std::to_string(q) + " does not occur in the reported map");
-	// every result rule, seen through the map, is a rule of the full product
-	for (const Rule& r : got.rules) {
-		Rule x, y; x.sym = y.sym = r.sym; if (!inv.count(r.parent)) return; x.parent = inv[r.parent].first; y.parent = inv[r.parent].second;
-		for (long c : r.ch) { if (!inv.count(c)) return; x.ch.push_back(inv[c].first); y.ch.push_back(inv[c].second); }
-		if (!ma.rules.count(x) || !mb.rules.count(y)) { TA t; t.rules.insert(r); violation("C02.product-map", site, "result rule" + mdl::to_lit(t).substr(1) + " is not the product of operand rules under the reported map"); }
+	// each result state accepts (as a root) exactly what both components of the pair it stands for accept
+	if (got.states().size() <= 10) for (long q : got.states()) {
+		auto it = inv.find(q); if (it == inv.end()) continue;
+		TA r1 = got; r1.finals = {q}; TA o1 = ma, o2 = mb; o1.finals = {it->second.first}; o2.finals = {it->second.second};
+		if (mdl::equiv(r1, mdl::isect(o1, o2), 6000) == 0)
+			violation("C02.product-map", site, "result state " + std::to_string(q) + " does not accept the intersection of what the pair it is reported to stand for (" + std::to_string(it->second.first) + "," + std::to_string(it->second.second) + ") accepts");
 	}
-	for (long f : got.finals) if (inv.count(f) && !(ma.finals.count(inv[f].first) && mb.finals.count(inv[f].second))) violation("C02.product-map", site, "final result state " + std::to_string(f) + " stands for a pair that is not final in both operands");
 }
 
 void do_isect(const Step& s, bool bu) {
@@ -647,9 +681,7 @@ void op_unreach(const Step& s) {
 		TA got = read_back(r); count(c_oracle_evals);
 		std::set<long> reach = mdl::reachable(got);
 		for (long q : got.states()) if (!reach.count(q)) violation("C03.unreach-postcondition", "et_unreach", "state " + std::to_string(q) + " still occurs but is not reachable top-down from a final state\n  input : " + mdl::to_lit(ma) + "\n  result: " + mdl::to_lit(got));
-		for (const Rule& x : got.rules) if (!ma.rules.count(x)) violation("C03.unreach-subset", "et_unreach", "result contains a rule the input does not have");
-		if (got.states().size() <= 8 && ma.states().size() <= 8) lang_oracle("C03.unreach-language", "et_unreach", got, ma, "RemoveUnreachableStates");
-		else { TA want = mdl::trim_unreachable(ma); if (got != want) violation("C03.unreach-language", "et_unreach", "result differs from the reachable part:" + mdl::diff(want, got)); }
+		lang_oracle("C03.unreach-language", "et_unreach", got, ma, "RemoveUnreachableStates");
 		check_operands_unchanged(s, a, nullptr, "C03");
 		note_ta_case(ma, nullptr, 6);
 	}
@@ -669,8 +701,7 @@ void op_useless(const Step& s) {
 		std::set<long> prod = mdl::productive(got), reach = mdl::reachable(got);
 		for (long q : got.states()) if (!prod.count(q) || !reach.count(q)) violation("C03.useless-postcondition", "et_useless", "state " + std::to_string(q) + " remains but takes part in no accepting run\n  input : " + mdl::to_lit(ma) + "\n  result: " + mdl::to_lit(got));
 		for (const Rule& x : got.rules) { bool ok = reach.count(x.parent) > 0; for (long c : x.ch) if (!prod.count(c)) ok = false; if (!ok) violation("C03.useless-postcondition", "et_useless", "a rule remains that takes part in no accepting run"); }
-		if (got.states().size() <= 8 && ma.states().size() <= 8) lang_oracle("C03.useless-language", "et_useless", got, ma, "RemoveUselessStates");
-		else if (got != want) violation("C03.useless-language", "et_useless", "result differs from the trimmed reference:" + mdl::diff(want, got));
+		lang_oracle("C03.useless-language", "et_useless", got, ma, "RemoveUselessStates"); (void)want;
 		check_operands_unchanged(s, a, nullptr, "C03");
 		note_ta_case(ma, nullptr, 7);
 	}
@@ -727,16 +758,22 @@ void op_reduce(const Step& s) {
 			for (long q : gs) for (long p : gs) if (q < p && sa.count(q) && sa.count(p) && R.count(std::make_pair(q, p)) && R.count(std::make_pair(p, q)))
 				violation("C05.reduce-image", "et_reduce", "result states " + std::to_string(q) + " and " + std::to_string(p) + " are simulation-equivalent in the input: they cannot both be images under the quotient map\n  input : " + mdl::to_lit(ma) + "\n  result: " + mdl::to_lit(got));
 		}
-		if (ma.states().size() <= 8) lang_oracle("C05.reduce-language", "et_reduce", got, ma, "Reduce");
-		else {
-			// structural: the result is the quotient by downward-simulation equivalence, pruned
-			mdl::Rel R = mdl::down_sim(ma); std::map<long, long> proj;
-			for (long q : sa) { for (long p : sa) if (R.count(std::make_pair(q, p)) && R.count(std::make_pair(p, q))) { proj[q] = p; break; } }
-			// any choice of representatives is fine: compare up to the projection got -> class
-			TA quot = mdl::trim_unreachable(mdl::rename(ma, proj));
-			std::map<long, long> gproj; for (long q : got.states()) gproj[q] = proj.count(q) ? proj[q] : q;
-			TA gq = mdl::rename(got, gproj);
-			if (gq != quot) violation("C05.reduce-language", "et_reduce", "result is not the simulation quotient of the input:" + mdl::diff(quot, gq));
+		{
+			// exact language equality where the reference procedure finishes within its work bound; otherwise sampled
+			// membership in both directions (sound: a disagreement on one tree refutes language equality).  The result
+			// is NOT compared with "the" simulation quotient: the property does not prescribe which rules of a class survive.
+			int e = ma.states().size() <= 8 ? mdl::equiv(got, ma) : mdl::equiv(got, ma, 6000);
+			count(c_oracle_evals);
+			if (e == 0) violation("C05.reduce-language", "et_reduce", "Reduce: language differs from the input\n  input : " + mdl::to_lit(ma) + "\n  result: " + mdl::to_lit(got));
+			if (e < 0) {
+				count(c_model_too_big);
+				for (uint64_t k = 0; k < 24; ++k) {
+					mdl::Tree t; const TA& from = (k & 1) ? got : ma; const TA& other = (k & 1) ? ma : got;
+					if (!mdl::sample_tree(from, uint64_t(s.arg(0)) * 131 + k + ma.hash(), 6, t)) break;
+					if (!mdl::accepts(other, t)) { violation("C05.reduce-language", "et_reduce", std::string("the tree ") + mdl::tree_str(t) + " is accepted by " + ((k & 1) ? "the result but not the input" : "the input but not the result") + "\n  input : " + mdl::to_lit(ma) + "\n  result: " + mdl::to_lit(got)); break; }
+				}
+			}
+			(mdl::is_empty(ma) ? count(c_lang_empty) : count(c_lang_nonempty));
 		}
 		check_operands_unchanged(s, a, nullptr, "C05");
 		note_ta_case(ma, nullptr, 9);
@@ -891,7 +928,7 @@ void op_reindex_into(const Step& s) {
 		check_image(s, a.model, before, read_back(*d.aut), f.m, addf, "et_reindex_into");
 		check_operands_unchanged(s, a, nullptr, "C14");
 		// sharing peers of the destination are unchanged
-		check_all_handles("C14.peers-unchanged", "et_reindex_into", "ReindexStates into a destination that shares storage");
+		check_all_languages("C14.peers-keep-language", "et_reindex_into", "ReindexStates into a destination that shares storage");
 		note_ta_case(a.model, &before, 16);
 	}
 	after_mutation(s, "et_reindex_into");
@@ -1149,8 +1186,10 @@ void abort_client(int c, uint64_t order_seed) {
 
 void final_check() {
 	api_end();
-	if (armed("C11") || armed("C12") || armed("C14") || armed("C02") || armed("C03"))
+	if (armed("C11") || armed("C12") || armed("C02"))
 		check_all_handles(g_profile + ".handle-equals-model", "<final>", "the end of the run");
+	else if (armed("C03") || armed("C14") || armed("C05") || armed("C15") || armed("C01") || armed("C06"))
+		check_all_languages(g_profile + ".handle-keeps-language", "<final>", "the end of the run");
 	for (auto& c : g_clients) {
 		for (auto& it : c.iters) if (!it.done && armed("C12")) {
 			// drain every unfinished view
@@ -1190,6 +1229,6 @@ void register_expl_ops() {
 	register_op("et_repeat", op_repeat); register_op("et_dump", op_dump);
 	register_abort_hook(abort_client);
 	register_final_hook(final_check);
-	register_integrity_hook([](const std::string& oracle, const std::string& site) { check_all_handles(oracle, site, "an unrelated call"); });
+	register_integrity_hook([](const std::string& oracle, const std::string& site) { check_all_handles(oracle, site, "an unrelated call"); });      // C13: parsing text must not touch any automaton at all
 }
 }
